@@ -45,6 +45,7 @@ func init() {
 			c.Clause("C04-D4")
 			ruleTokenKeyed(c, "client")
 			ruleClientRouting(c)
+			ruleNullErrorIsAbsent(c)
 			c.Clause("C04-D5")
 			ruleBatchOrder(c)
 		},
